@@ -134,9 +134,13 @@ CHECKS["C03"] = dict(
          "molecule i at slot i for EVERY arrangement of image ids (interleaved or not), while plain per-image "
          "concatenation is only a permutation; zip pairs task i with keyword row i; replace keeps exactly the "
          "referenced images; auto-allocated image ids are fresh; derived loaders / groups are the table "
-         "operations of C12. polars/numpy/dask primitives are parameters; histories on a real BatchLoader "
-         "with source-identifying tomograms are compared with the model.",
-    design="5 C03", technique="Lean 4 proof (scatter correctness for all key sequences) + history correspondence")
+         "operations of C12. Image table as a state machine (Model.Batch): after EVERY history of add_tomogram "
+         "(automatic or new explicit id) / filter / add_loader(batch or self-copy) the ids are unique and the "
+         "image found under each molecule's id is the tomogram it was registered with (history_lookup_own, "
+         "induction over the operation list; fresh-id search proved total by pigeonhole). polars/numpy/dask "
+         "primitives are parameters; histories on a real BatchLoader with source-identifying tomograms are "
+         "compared with both models (K2 m:batch, m:imgtab).",
+    design="5 C03", technique="Lean 4 proof (scatter correctness for all key sequences; image-table invariant by induction over operation histories) + history correspondence")
 
 CHECKS["C14"] = dict(
     text="Theorems (every template size, position incl. negative, scale): fragment origin + output centre = "
